@@ -9,7 +9,6 @@ import (
 	"reflect"
 	"regexp"
 	"runtime"
-	"sort"
 	"strings"
 
 	gojson "github.com/goccy/go-json"
@@ -263,6 +262,9 @@ var decodeOps = map[string]bool{"unmarshal": true, "unmarshal_ctx": true, "unmar
 // runStep executes one step and returns its observation.
 func (ss *sessState) runStep(i int) {
 	st := &ss.s.Steps[i]
+	if !verifsim.Active() {
+		CurrentStep = fmt.Sprintf("session %s step %d (%s %s)", ss.s.ID, i, st.Op, st.T)
+	}
 	verifsim.Yield(seamStep)
 	obs := ss.doStep(i, st)
 	ss.obs = append(ss.obs, obs)
@@ -521,10 +523,10 @@ func (ss *sessState) doStep(i int, st *plan.Step) (obs string) {
 			return fmt.Sprintf("path_unmarshal err=%q val=%s", normErr(err), DumpValue(dst.Elem()))
 		default:
 			var src interface{}
-			if len(st.Doc) > 0 {
-				json.Unmarshal(st.Doc, &src)
-			} else {
+			if st.T != "" && len(st.Doc) == 0 {
 				src = valueArg(st)
+			} else {
+				json.Unmarshal(st.Doc, &src)
 			}
 			ti := lookupType("Iface")
 			if st.S2 != "" {
@@ -575,10 +577,9 @@ func canonOut(st *plan.Step, b []byte) string {
 				return "unordered(canonical):" + short(c)
 			}
 		}
-		// not plain JSON (colour markers): fall back to the multiset of bytes
-		bs := append([]byte(nil), b...)
-		sort.Slice(bs, func(i, j int) bool { return bs[i] < bs[j] })
-		return "unordered(bytes):" + short(bs)
+		// not plain JSON (colour markers, or a short write cut it): the member
+		// order is unspecified, so only the length is comparable
+		return fmt.Sprintf("unordered(len=%d)", len(b))
 	}
 	return short(b)
 }
